@@ -662,6 +662,9 @@ func (b *BaseStore) Sync(ctx context.Context, heads []ipfslog.Entry) error {
 		return nil
 	}
 
+	// only the heads that pass every check below are handed to the replicator
+	verified := make([]ipfslog.Entry, 0, len(heads))
+
 	for _, h := range heads {
 		if h == nil {
 			b.Logger().Debug("warning: Given input entry was 'null'.")
@@ -706,9 +709,14 @@ func (b *BaseStore) Sync(ctx context.Context, heads []ipfslog.Entry) error {
 		}
 
 		span.AddEvent("store-sync-head-verified")
+		verified = append(verified, h)
 	}
 
-	go b.Replicator().Load(ctx, heads)
+	if len(verified) == 0 {
+		return nil
+	}
+
+	go b.Replicator().Load(ctx, verified)
 
 	return nil
 }
@@ -754,8 +762,11 @@ func (b *BaseStore) LoadFromSnapshot(ctx context.Context) error {
 			entries = append(entries, &entry.Entry{Hash: h})
 		}
 
-		if err := b.Sync(ctx, entries); err != nil {
-			return fmt.Errorf("unable to sync queued CIDs: %w", err)
+		// these are bare addresses recorded by this node when the snapshot was saved, not
+		// heads received from a peer: they are fetched by the replicator, and checked when
+		// they are joined, like any other link
+		if len(entries) > 0 {
+			go b.Replicator().Load(ctx, entries)
 		}
 	}
 
